@@ -44,10 +44,13 @@ CLAIMED = {
     "C16": dict(ref="DESIGN.md §3 C16", note=NOTE + "; partial: request-handling logic only; sockets, timeouts and action execution are outside",
                 text="The authorisation / framing logic of handleHttpRequest is decided for all requests assembled from the token grammar (any header order, key, "
                      "content length, body, early close) under every cut of the stream into reads, with the real bufio.Scanner and split closure."),
+    "C07": dict(ref="DESIGN.md §3 C07", note=NOTE + "; partial: lifted closures of Run only; framing, exit codes and interactive accept are outside",
+                text="The streaming-filter pusher and both item builders of Run are lifted verbatim from the current source and executed on symbolic records: every printed "
+                     "line must be an original input record, and AsString must return the input bytes under --with-nth and --header-lines."),
 }
 PENDING = "check not built yet in this session (planned, see DESIGN.md §3)"
 NA = {
-      "C07": PENDING, "C09": PENDING,
+       "C09": PENDING,
        "C19": PENDING,
     "C14": "terminal modes, child processes, signals and the goroutine/channel render loop are OS effects and schedules, not a bounded computation the SSA→SMT encoder can make symbolic (DESIGN.md §5)",
     "C15": "relation between the whole Terminal state and the byte stream written through tui.Window; thousands of lines of drawing code on uniseg tables with no leaf whose correctness implies the property (DESIGN.md §5)",
